@@ -42,13 +42,19 @@ func (eng) CoqRequire(mode string) string {
 func (eng) CoqCaseType(mode string) string { return "Check_batching.case" }
 func (eng) CoqRun(mode string) string      { return "Check_batching.run" }
 func (eng) Rule(mode string) string {
-	return "batcher cases: random histories of Add/IsFull/Flush(CurrentBatch | current, stale, future, negative token | the token received last)/timer expiry/late callbacks (expiry committed, the batch handed out and the next one started before the old callback sends its token), sizes 0..5, with and without delay, flush results read back only at the end of the history (aliasing); reorder cases: stimuli add/flush/fire/hold-adder/hold-timeout/release/complete-k/read over max sizes 0..4, buffer sizes 0..4, including the pattern 'time-out flusher held between Flush and Reserve while the adder fills and flushes the next batch', completions in generated order, settled at the end; hammer cases: 2..4 adders x 20..60 items against 1..2 concurrent flushers. Non-trivial: at least two non-empty batches were handed out (batcher: two non-empty Flush results; reorder: two fetches; hammer: two batches); distinct by hash of the case."
+	return "batcher cases: random histories of Add/IsFull/Flush(CurrentBatch | current, stale, future, negative token | the token received last)/timer expiry/late callbacks (expiry committed, the batch handed out and the next one started before the old callback sends its token), sizes 0..5, with and without delay, flush results read back only at the end of the history (aliasing); reorder cases: stimuli add/flush/fire/hold-adder/hold-timeout/release/complete-k/read over max sizes 0..4, buffer sizes 0..4, including the pattern 'time-out flusher held between Flush and Reserve while the adder fills and flushes the next batch', completions in generated order, fetches that return an error with no / half / all of their results while other batches are in flight or follow, settled at the end; hammer cases: 2..4 adders x 20..60 items against 1..2 concurrent flushers. Non-trivial: at least two non-empty batches were handed out (batcher: two non-empty Flush results; reorder: two fetches; hammer: two batches); distinct by hash of the case."
 }
 
 type op struct {
 	K string `json:"k"`
 	X int    `json:"x,omitempty"`
+	Y int    `json:"y,omitempty"` // fail: what comes back with the error (0 nothing, 1 the first half of the results, 2 all of them)
 }
+
+// fetchErr is the error a failed fetch returns; it names the batch by its first item.
+type fetchErr struct{ first int }
+
+func (e fetchErr) Error() string { return fmt.Sprintf("fetch of the batch starting with item %d failed", e.first) }
 
 const fetchOffset = 1000 // result of fetching item x is x+fetchOffset
 
@@ -373,12 +379,14 @@ type fetchRec struct {
 	events   []int
 	ch       chan struct{}
 	released bool
+	failMode int // -1: the fetch succeeds
 }
 
 type rsys struct {
 	mu       sync.Mutex
 	fetches  []*fetchRec
 	out      []int
+	errs     []int // first items of the batches whose fetch error arrived on ErrChan, in order
 	busy     bool
 	holdA    bool
 	holdT    bool
@@ -457,7 +465,7 @@ func execReorder(c *hx.Case) (*hx.Result, error) {
 		curMu.Unlock()
 	}()
 	timer := &recTimer{}
-	errChan := make(chan error, 1024)
+	errChan := make(chan error) // unbuffered; the harness keeps receiving from it, like from Output
 	if err := waitQuiescent(); err != nil {
 		cancel()
 		return nil, err
@@ -469,7 +477,7 @@ func execReorder(c *hx.Case) (*hx.Result, error) {
 	rf := batching.NewReorderFetcher(ctx, batching.NewReorderFetcherParams[int, int]{
 		Batcher: batching.NewEventBatcher[int](ctx, batching.EventBatcherParams{MaxDelay: delayOf(delay), MaxSize: maxSize, Timer: timer}),
 		FetchBatch: func(ctx context.Context, events []int) ([]int, error) {
-			rec := &fetchRec{events: append([]int{}, events...), ch: make(chan struct{})}
+			rec := &fetchRec{events: append([]int{}, events...), ch: make(chan struct{}), failMode: -1}
 			s.mu.Lock()
 			s.fetches = append(s.fetches, rec)
 			s.mu.Unlock()
@@ -477,6 +485,14 @@ func execReorder(c *hx.Case) (*hx.Result, error) {
 			res := make([]int, len(events))
 			for i, e := range events { // read the batch again at completion time: it must not have changed
 				res[i] = e + fetchOffset
+			}
+			switch rec.failMode { // set by the harness before it closed rec.ch
+			case 0:
+				return nil, fetchErr{rec.events[0]}
+			case 1:
+				return res[:len(res)/2], fetchErr{rec.events[0]}
+			case 2:
+				return res, fetchErr{rec.events[0]}
 			}
 			return res, nil
 		},
@@ -490,6 +506,14 @@ func execReorder(c *hx.Case) (*hx.Result, error) {
 			case v := <-rf.Output:
 				s.mu.Lock()
 				s.out = append(s.out, v)
+				s.mu.Unlock()
+			case e := <-errChan: // consumer of ErrChan: always willing
+				s.mu.Lock()
+				if fe, ok := e.(fetchErr); ok {
+					s.errs = append(s.errs, fe.first)
+				} else {
+					s.errs = append(s.errs, -1)
+				}
 				s.mu.Unlock()
 			case <-done:
 				return
@@ -532,6 +556,7 @@ func execReorder(c *hx.Case) (*hx.Result, error) {
 	var steps []string
 	var obsLog []any
 	var added []int
+	var fails []string
 	tags := map[string]bool{"kind=reorder": true}
 	tags[fmt.Sprintf("r.max=%d", maxSize)] = true
 	tags[fmt.Sprintf("r.buf=%d", bufSize)] = true
@@ -590,7 +615,7 @@ func execReorder(c *hx.Case) (*hx.Result, error) {
 			}
 			s.mu.Unlock()
 			stim = "SRelease"
-		case "complete":
+		case "complete", "fail":
 			o2 := s.outstanding()
 			if len(o2) == 0 {
 				s.mu.Unlock()
@@ -600,10 +625,21 @@ func execReorder(c *hx.Case) (*hx.Result, error) {
 			if k > 0 {
 				tags["r.completion-out-of-order"] = true
 			}
+			stim = fmt.Sprintf("SComplete %d", k)
+			if o.K == "fail" {
+				mode := ((o.Y % 3) + 3) % 3
+				o2[k].failMode = mode
+				fails = append(fails, fmt.Sprintf("(%d, %d)", o2[k].events[0], mode))
+				tags["r.fetch-error"] = true
+				tags[fmt.Sprintf("r.fetch-error-mode=%d", mode)] = true
+				if len(o2) > 1 || k < len(o2)-1 {
+					tags["r.fetch-error-while-other-fetches-run"] = true
+				}
+				stim = fmt.Sprintf("SFail %d %d", k, mode)
+			}
 			o2[k].released = true
 			close(o2[k].ch)
 			s.mu.Unlock()
-			stim = fmt.Sprintf("SComplete %d", k)
 		case "read":
 			s.mu.Unlock()
 			stim = "SRead"
@@ -675,6 +711,7 @@ func execReorder(c *hx.Case) (*hx.Result, error) {
 	s.mu.Lock()
 	settled := !s.busy && !s.heldA && !s.heldT && len(s.outstanding()) == 0
 	out := append([]int{}, s.out...)
+	errs := append([]int{}, s.errs...)
 	var batches [][]int
 	for _, f := range s.fetches {
 		batches = append(batches, f.events)
@@ -688,17 +725,13 @@ func execReorder(c *hx.Case) (*hx.Result, error) {
 		close(adderOps)
 	}
 	close(done)
-	select {
-	case e := <-errChan:
-		return nil, fmt.Errorf("fetch error reported: %v", e)
-	default:
-	}
 	bs := make([]string, len(batches))
 	for i, b := range batches {
 		bs[i] = coqNList(b)
 	}
-	term := fmt.Sprintf("RCase %d %s %d %s %s %s %s %s", maxSize, hx.CoqBool(delay > 0), bufSize,
-		hx.CoqList(steps, "rstep"), coqNList(added), coqNList(out), hx.CoqList(bs, "list N"), hx.CoqBool(settled))
+	term := fmt.Sprintf("RCase %d %s %d %s %s %s %s %s %s %s", maxSize, hx.CoqBool(delay > 0), bufSize,
+		hx.CoqList(steps, "rstep"), coqNList(added), coqNList(out), hx.CoqList(bs, "list N"),
+		hx.CoqList(fails, "N * N"), coqNList(errs), hx.CoqBool(settled))
 	var tl []string
 	for t := range tags {
 		tl = append(tl, t)
@@ -708,7 +741,7 @@ func execReorder(c *hx.Case) (*hx.Result, error) {
 		tl = append(tl, "r.batches>=2")
 	}
 	return &hx.Result{Term: term, Nontrivial: len(batches) >= 2, Tags: tl,
-		Observed: map[string]any{"added": added, "output": out, "fetched_batches": batches, "settled": settled, "steps": obsLog}}, nil
+		Observed: map[string]any{"added": added, "output": out, "fetched_batches": batches, "failed_fetches": fails, "errors_received": errs, "settled": settled, "steps": obsLog}}, nil
 }
 
 // ------------------------------------------------------------------ hammer kind
@@ -913,7 +946,11 @@ func genReorder(r *hx.Rand) *hx.Case {
 			case 1:
 				ops = append(ops, op{K: "fire"})
 			default:
-				ops = append(ops, op{K: "complete", X: r.Intn(4)})
+				if r.Chance(1, 4) {
+					ops = append(ops, op{K: "fail", X: r.Intn(4), Y: r.Intn(3)})
+				} else {
+					ops = append(ops, op{K: "complete", X: r.Intn(4)})
+				}
 			}
 		}
 	} else {
@@ -932,8 +969,10 @@ func genReorder(r *hx.Rand) *hx.Case {
 				ops = append(ops, op{K: "holdA"})
 			case x < 75:
 				ops = append(ops, op{K: "release"})
-			case x < 95:
+			case x < 90:
 				ops = append(ops, op{K: "complete", X: r.Intn(5)})
+			case x < 95:
+				ops = append(ops, op{K: "fail", X: r.Intn(5), Y: r.Intn(3)})
 			default:
 				ops = append(ops, op{K: "read"})
 			}
